@@ -320,25 +320,27 @@ def pushTail (kf : KF) (b : Base) : (cnt pos : Nat) → St → Option St
       | none => none
       | some st' => pushTail kf b cnt (pos + 1) st'
 
+/-- the compressed part of `push_chunk`: the `KeepChunk` for `start .. base_compressed_end` (if it is not empty) -/
+def pushChunkHead (kf : KF) (st : St) (b : Base) (s bce : Nat) : Option St :=
+  if s ≠ bce then
+    match b.node.key s, b.node.rangeLen s bce with
+    | some fk, some rl =>
+      match uncompressedRange b.node.pl rl (bce - s) (kf.sl fk) with
+      | none => none
+      | some sum =>
+        match st.gauge.ingestOp kf (some b) (.keep s bce sum) with
+        | none => none
+        | some g =>
+          if g.pc.isSome then
+            (replaceOp (some b) (.keep s bce sum)).map fun r => { st with gauge := g, ops := st.ops ++ r }
+          else some { st with gauge := g, ops := st.ops ++ [.keep s bce sum] }
+    | _, _ => none
+  else some st
+
 def pushChunk (kf : KF) (st : St) (b : Base) (s e : Nat) : Option St :=
   if !st.valid then none else
   let bce := max (min e b.node.pc) s
-  let st1? : Option St :=
-    if s ≠ bce then
-      match b.node.key s, b.node.rangeLen s bce with
-      | some fk, some rl =>
-        match uncompressedRange b.node.pl rl (bce - s) (kf.sl fk) with
-        | none => none
-        | some sum =>
-          match st.gauge.ingestOp kf (some b) (.keep s bce sum) with
-          | none => none
-          | some g =>
-            if g.pc.isSome then
-              (replaceOp (some b) (.keep s bce sum)).map fun r => { st with gauge := g, ops := st.ops ++ r }
-            else some { st with gauge := g, ops := st.ops ++ [.keep s bce sum] }
-      | _, _ => none
-    else some st
-  match st1? with
+  match pushChunkHead kf st b s bce with
   | none => none
   | some st1 => pushTail kf b (e - bce) bce st1
 
